@@ -115,7 +115,7 @@ impl Property for C04 {
         "proptest single cases: world = gateway + gas service + ITS (current-source token injected natively) with one ITS-deployed token, one registered canonical token with 500 in custody, an executable probe; a trusted-chain history of 0-6 set/remove operations over 3 chains; a conforming delivery (ReceiveFromHub wrapping a mint / a release / a transfer with data / a deploy with or without minter) and at most one deviation from the statement's list (never approved; approved with other payload / id / source address / destination; already executed; source chain not the hub; source address not the hub address; SendToHub wrapper; raw inner message; inner type 2; origin never trusted / removed again; unknown token; undecodable recipient or minter; amount 2^127; truncated / padded payload; any byte-level mutation - bit flip, dirty type word or padding, shifted offset, altered length - that leaves a non-canonical encoding). Oracle: effects (exact balance / custody / registry delta, gateway status executed, second delivery refused) iff no deviation; otherwise execute fails and the ledger snapshot is identical (approval still approved, not executed). non-trivial = a deviation is present, or the trust history contains a removal; distinct by Debug hash"
     }
     fn cases(&self, tier: Tier) -> u64 {
-        tier.pick(6000, 100000)
+        tier.pick(15000, 200000)
     }
     fn strategy(&self, _tier: Tier) -> BoxedStrategy<Case> {
         (proptest::collection::vec((any::<bool>(), 0u8..3), 0..7), 0u8..3, kind(), 1u16..400, 0u8..70, any::<u64>(), dev())
